@@ -124,7 +124,7 @@ def run_units_kani(units, tier, work, only_props=None, tag='k'):
         for h in hs:
             cmd += ['--harness', h['name']]
     env = dict(os.environ, CARGO_NET_OFFLINE='true')
-    tmo = sum(u['kani'].get('timeout', 1500 if tier == 'quick' else 7200) for _, u, _ in sel.values())
+    tmo = sum(u['kani'].get('timeout', 1200 if tier == 'quick' else 2400) for _, u, _ in sel.values())
     lock = open(os.path.join(CACHE, 'kani.lock'), 'w')
     fcntl.flock(lock, fcntl.LOCK_EX)
     try:
